@@ -23,18 +23,31 @@ def _known_tags(c):
     return out
 
 
+BATCH = 400   # cases per harness process: every node ever started in a process leaves its name in the
+              # process-global EDF atom cache, which travels in every handshake; beyond ~2200 node starts
+              # the handshake message exceeds its size cap and new connections are refused
+
+
 def _run(c, name, n, seed=None, corr=CORR):
-    args = ["hist", "-n", str(n)]
     kt = _known_tags(c)
-    if kt:
-        args += ["-known", ",".join(kt)]
-    if c.replay and seed is None:
-        args = ["hist", "-replay", c.replay]
     env = {"VERIF_SEED": str(seed)} if seed is not None else None
-    out = c.harness("netfail", args, timeout=1500, env=env)
-    if not out:
+    if c.replay and seed is None:
+        out = c.harness("netfail", ["hist", "-replay", c.replay], timeout=600, env=env)
+        if out:
+            c.cases(name, out, IMPORTS, "ncase", corr=list(corr), spec=SPEC, premise=PREMISE)
         return
-    c.cases(name, out, IMPORTS, "ncase", corr=list(corr), spec=SPEC, premise=PREMISE)
+    k = 0
+    while n > 0:
+        args = ["hist", "-n", str(min(n, BATCH)), "-stream", str(k)]
+        if kt:
+            args += ["-known", ",".join(kt)]
+        out = c.harness("netfail", args, timeout=900, env=env)
+        if out:
+            c.cases(name if k == 0 else "%s-b%d" % (name, k), out, IMPORTS, "ncase", corr=list(corr), spec=SPEC, premise=PREMISE)
+        if c.violations:
+            break
+        n -= BATCH
+        k += 1
 
 
 def run(c):
@@ -44,7 +57,7 @@ def run(c):
     ok, log = vlib.coq_make(["theories/NetFail/Cases.vo"])
     if not ok:
         c.broken.append({"kind": "proof", "what": "Coq build of theories/NetFail/Cases.v failed", "detail": log[-2500:]})
-    n = 150 if c.tier == "quick" else 1500
+    n = 150 if c.tier == "quick" else 1600
     _run(c, "hist", n)
     if c.broken and not c.violations and not c.replay:
         # something no longer checks: spend the extra search budget on the property monitors only
